@@ -209,7 +209,7 @@ class Parser:
         with open(filename, 'r') as f:
             a = list()
             for line in f:
-                if '.nodes' in line:
+                if line.startswith('.nodes'):
                     break
                 a.append(line)
             s = '\n'.join(a)
@@ -275,10 +275,10 @@ class Parser:
         # parse nodes (large but very uniform)
         with open(filename, 'r') as f:
             for line in f:
-                if '.nodes' in line:
+                if line.startswith('.nodes'):
                     break
             for line in f:
-                if '.end' in line:
+                if line.startswith('.end'):
                     break
                 u, info, index, v, w = line.split(' ')
                 u, index, v, w = map(int, (u, index, v, w))
